@@ -89,8 +89,8 @@ type CCSpec struct {
 // Action is one step. The meaning of the generic fields depends on K:
 //
 //	Tick{N}
-//	Deliver{N=from, M=to, I=position on the link (0=oldest), B=keep a copy in flight (duplicate)}
-//	Drop{N=from, M=to, I=position}
+//	Deliver{N=from, M=to, I=sequence number of the message on the link from->to (1 = first ever sent), B=keep a copy in flight (duplicate)}
+//	Drop{N=from, M=to, I=sequence number}
 //	Ready{N} Persist{N} Apply{N} Advance{N}            (Ready/Advance interface)
 //	AppendStep{N} AppendResp{N} ApplyStep{N} ApplyResp{N}  (storage threads)
 //	Propose{N, Tags=[tag...] (one entry per tag), I=payload size, B=batch as one MsgProp from a client (false: RawNode.Propose)}
